@@ -1,5 +1,5 @@
 CONSTANTS Ws = {1, 2, 3}  Hs = {1, 2, 3}  SBs = {0, 1, 2}  TABs = {0, 1, 2}  MaxOps = 5
-  Kind = "rec"  Bug = ""  Props = {"C18"}  EmitMode = "none"  EmitMod = 1
+  Kind = "rec"  Bug = ""  Props = {"C18"}  EmitMode = "sample"  EmitMod = 16
 CONSTANT Bytes <- MCBytes
 CONSTANT CurVals <- MCCurVals
 INIT Init
